@@ -250,7 +250,7 @@ def grep(ctx, shard, nshards):
     from ..core import excluded_classes
     known = excluded_classes("C17")
     it = 0
-    budget = 120 if not ctx.thorough else 4000
+    budget = 450 if not ctx.thorough else 6000
     while it < budget:
         base = rnd.choice(B) if rnd.random() < 0.5 else rnd.randrange(R.NMIN + 500, R.NMAX - 500)
         base = max(R.NMIN + 500, min(R.NMAX - 500, base))
